@@ -3,6 +3,8 @@
 A query returns dict(name, property, verdict in {'holds','violated','inconclusive'}, detail, functions, witness).
 `witness` names a native public-API/in-crate witness program (verif-replay --witness <id>) that must
 reproduce a 'violated' verdict against the real build before it is reported."""
+import os as _os
+REPO = _os.environ.get("VERIF_REPO_SRC", "/repo")  # scratch trees during development only
 import re
 
 from mirsmt import Exec, Smt, solve, mk_deref, mk_v2b
@@ -625,13 +627,8 @@ def q_c12_event_fields(bodies):
     env_arg = smt.const("closure_env")
     # run to obtain the environment at the return
     paths = ex.run(body, [env_arg])
-    if len(paths) != 1:
-        return dict(name=name, property="C12", verdict="inconclusive", detail="expected one path, got %d" % len(paths), functions=[body.name])
-    pc, ret, calls, env = paths[0]
-    fields = {}
-    for part in Exec.split_args(agg[1]):
-        k, v = part.split(":", 1)
-        fields[k.strip()] = ex.operand(env, v)
+    if not paths:
+        return dict(name=name, property="C12", verdict="inconclusive", detail="no path through the event closure", functions=[body.name])
     c = lambda var: mk_deref("(fld_%s %s)" % (cap[var], env_arg))  # noqa: the captured value (captures are references)
     want = {
         "namespace": c("my_namespace"),
@@ -643,14 +640,21 @@ def q_c12_event_fields(bodies):
     problems, nq = [], 0
     if agg[0] != "RemoteInsert":
         problems.append(("entries applied by a reconciliation message are announced as RemoteInsert", "structural: %s" % agg[0]))
-    for k, w in want.items():
-        if k not in fields:
-            problems.append(("the event has a field %s" % k, "structural"))
-            continue
-        nq += 1
-        v, _ = solve(smt.script("(not (= %s %s))" % (fields[k], w)))
-        if v != "unsat":
-            problems.append(("event field `%s` is the corresponding callback argument / policy decision" % k, v))
+    fields = {}
+    for pc, ret, calls, env in paths:
+        fields = {}
+        for part in Exec.split_args(agg[1]):
+            k, v = part.split(":", 1)
+            fields[k.strip()] = ex.operand(env, v)
+        ctx = " ".join(pc) if pc else "true"
+        for k, w in want.items():
+            if k not in fields:
+                problems.append(("the event has a field %s" % k, "structural"))
+                continue
+            nq += 1
+            v, _ = solve(smt.script("(and %s (not (= %s %s)))" % (ctx, fields[k], w)))
+            if v != "unsat":
+                problems.append(("event field `%s` is the corresponding callback argument / policy decision" % k, v))
     verdict = "holds"
     if any(p[1] == "inconclusive" for p in problems):
         verdict = "inconclusive"
@@ -671,7 +675,7 @@ QUERIES["C12"] = [q_c12_event_fields]
 def _tables_fields():
     """field order of `struct Tables` (src/store/fs/tables.rs), read from the current source"""
     import re as _re
-    src = open("/repo/src/store/fs/tables.rs").read()
+    src = open(REPO + "/src/store/fs/tables.rs").read()
     m = _re.search(r"pub struct Tables<'tx> \{(.*?)\n\}", src, _re.S)
     names = _re.findall(r"pub (\w+):", m.group(1)) if m else []
     return names
@@ -1002,3 +1006,1048 @@ def q_c11_connect_glue(bodies):
 
 
 QUERIES["C11"] = [q_c11_connect_glue]
+
+
+# ------------------------------------------------------------------------------------------------
+# C17: the useful-peer list is a bounded most-recently-used list (one inductive step + read order)
+# ------------------------------------------------------------------------------------------------
+
+def _c17_models(smt, K, cache_n, fields, st):
+    """models shared by the two C17 queries.  The multimap row of the document is the ascending list
+    (n_0,p_0) < ... < (n_{K-1},p_{K-1}) (redb keeps multimap values sorted); its iterator is a window
+    (lo, hi) kept in the path-local environment."""
+    from mirsmt import split_sexpr_args
+    smt.fun("C_Ok", 1); smt.fun("C_Some", 1); smt.fun("C_None", 0); smt.fun("C_Continue", 1)
+    smt.fun("C_guard", 2); smt.fun("C_tuple2", 2); smt.fun("discr", 1)
+    NS_T = "(ref (fld_%d TBL))" % fields.index("namespaces")
+    PEERS_T = "(ref (fld_%d TBL))" % fields.index("namespace_peers")
+    st["PEERS_T"] = PEERS_T
+
+    def elem(i):
+        return "(C_guard n_%d p_%d)" % (i, i)
+
+    def m_table_get(ex, v):
+        if v[0] == NS_T:
+            return "(C_Ok DOCOPT)"
+        return "(C_Ok %s)" % smt.const("other_get")
+
+    def m_mm_get(ex, v, env):
+        if v[0] != PEERS_T:
+            raise ValueError("multimap get on an unexpected table: %s" % v[0])
+        env["__it"] = (0, K)
+        return "(C_Ok ITER)"
+    m_mm_get.wants_env = True
+
+    def m_branch(ex, v):
+        if v[0].startswith("(C_Ok "):
+            return "(C_Continue %s)" % split_sexpr_args(v[0])[0]
+        return "(%s %s)" % (smt.fun("call_branch", 1), v[0])
+
+    def m_next(ex, v, env):
+        lo, hi = env["__it"]
+        if lo >= hi:
+            return "C_None"
+        env["__it"] = (lo + 1, hi)
+        return "(C_Some (C_Ok %s))" % elem(lo)
+    m_next.wants_env = True
+
+    def m_next_back(ex, v, env):
+        lo, hi = env["__it"]
+        if lo >= hi:
+            return "C_None"
+        env["__it"] = (lo, hi - 1)
+        return "(C_Some (C_Ok %s))" % elem(hi - 1)
+    m_next_back.wants_env = True
+
+    def m_transpose(ex, v):
+        if v[0] == "C_None":
+            return "(C_Ok C_None)"
+        inner = split_sexpr_args(v[0])[0]  # (C_Ok g)
+        return "(C_Ok (C_Some %s))" % split_sexpr_args(inner)[0]
+
+    def m_map_guard(ex, v):
+        if v[0] == "C_None":
+            return "C_None"
+        n, p = split_sexpr_args(split_sexpr_args(v[0])[0])
+        return "(C_Some (C_tuple2 %s %s))" % (n, p)
+
+    def m_value(ex, v):
+        g = mk_deref(v[0])
+        n, p = split_sexpr_args(g)
+        return "(C_tuple2 %s (ref %s))" % (n, p)
+
+    def m_eq(ex, v):
+        return "(b2v (= %s %s))" % (mk_deref(mk_deref(v[0])), mk_deref(mk_deref(v[1])))
+
+    def m_is_some(ex, v):
+        return "(b2v (= (discr %s) k_int_1))" % mk_deref(v[0])
+
+    def m_is_none(ex, v):
+        x = mk_deref(v[0])
+        if x == "C_None":
+            return "(b2v true)"
+        if x.startswith("(C_Some "):
+            return "(b2v false)"
+        raise ValueError("is_none on a non-constructor value")
+
+    def m_not(ex, v):
+        return "(b2v (not %s))" % mk_v2b(v[0])
+
+    def m_push(ex, v, env):
+        env["__pushed"] = env.get("__pushed", ()) + (v[1],)
+        return ex._konst("unit")
+    m_push.wants_env = True
+
+    def m_is_empty(ex, v, env):
+        return "(b2v %s)" % ("true" if not env.get("__pushed") else "false")
+    m_is_empty.wants_env = True
+
+    ex_k = lambda ex, v: "(C_Ok (b2v true))"  # noqa
+    models = dict(_tracing_off_models())
+    models.update({
+        r"^<Table<.*> as ReadableTable<.*>>::get(::<.*>)?$|^Table::<.*>::get(::<.*>)?$": m_table_get,
+        r"^<MultimapTable<.*> as ReadableMultimapTable<.*>>::get(::<.*>)?$|^MultimapTable::<.*>::get(::<.*>)?$": m_mm_get,
+        r" as Try>::branch$": m_branch,
+        r"^<MultimapValue<.*> as Iterator>::next$": m_next,
+        r"^<MultimapValue<.*> as DoubleEndedIterator>::next_back$|^<Rev<MultimapValue<.*>> as Iterator>::next$": m_next_back,
+        r"^<MultimapValue<.*> as Iterator>::rev$": lambda ex, v: "ITER_REV",
+        r" as IntoIterator>::into_iter$": lambda ex, v: v[0],
+        r"^std::option::Option::<Result<AccessGuard<.*>, StorageError>>::transpose$": m_transpose,
+        r"^std::option::Option::<AccessGuard<.*>>::map::<\(u64, \[u8; 32\]\), \{closure": m_map_guard,
+        r"^AccessGuard::<.*>::value$": m_value,
+        r"^<&\[u8; 32\] as PartialEq>::eq$": m_eq,
+        r"^std::option::Option::<AccessGuard<.*>>::is_some$": m_is_some,
+        r"^std::option::Option::<u64>::is_none$": m_is_none,
+        r"anyhow::__private::not": m_not,
+        r"^NonZero::<usize>::get$": lambda ex, v: ex._konst("%d_usize" % cache_n),
+        r"^MultimapTable::<.*>::(insert|remove)(::<.*>)?$": ex_k,
+        r"^Vec::<\[u8; 32\]>::push$": m_push,
+        r"^Vec::<\[u8; 32\]>::is_empty$": m_is_empty,
+        r"^store::fs::Store::tables$": lambda ex, v: "(C_Ok (ref TBL))",
+        r"NamespaceId::as_bytes$": lambda ex, v: "(nsbytes %s)" % v[0],
+    })
+    return models
+
+
+def _c17_cache_size():
+    import re as _re
+    m = _re.search(r"PEERS_PER_DOC_CACHE_SIZE: NonZeroUsize = match NonZeroUsize::new\((\d+)\)", open(REPO + "/src/store.rs").read())
+    return int(m.group(1)) if m else None
+
+
+def _c17_smt(K):
+    smt = Smt()
+    for c in ["TBL", "DOCOPT", "ITER", "ITER_REV", "NSB", "NANOS", "NEWP", "STORE", "NSID"] + ["n_%d" % i for i in range(K)] + ["p_%d" % i for i in range(K)]:
+        smt.decls.append("(declare-const %s V)" % c)
+    smt.fun("nsbytes", 1)
+    return smt
+
+
+SPEC_CACHE = 5  # "the store remembers at most five peers" (property C17)
+
+
+def q_c17_register_step(bodies):
+    """C17, one inductive step over the REAL closure of `Store::register_useful_peer` that runs inside
+    the write transaction (its `for` loop unrolled: the iterator is a concrete window over K rows).
+    Pre-state (the invariant): the document's multimap row is (n_0,p_0) < ... < (n_{K-1},p_{K-1}),
+    K in 0..=5, peers pairwise distinct; the new timestamp is newer than every stored one (clock
+    contract, see DESIGN).  Symbolic: whether the document exists, and which stored peer (if any)
+    equals the registered peer.  Decided for every path: unknown document => Err and no write;
+    otherwise exactly (NANOS, peer) is inserted under the document, row j is removed iff p_j is the
+    registered peer or (j is the oldest, the list is full with five and the peer is new), and the
+    resulting size is <= 5.  That is the MRU update, and it re-establishes the invariant."""
+    import re as _re
+    from mirsmt import split_sexpr_args
+    name = "c17_register_step"
+    hits = find_body(bodies, r"::register_useful_peer::\{closure#1\}$", r"&mut Tables<'_> -> Result<\(\), anyhow::Error>")
+    fields = _tables_fields()
+    cache_n = _c17_cache_size()
+    if len(hits) != 1 or "namespace_peers" not in fields or "namespaces" not in fields or cache_n is None:
+        return dict(name=name, property="C17", verdict="inconclusive", detail="register_useful_peer closure / Tables / cache size not found uniquely", functions=[])
+    body = hits[0]
+    # roles of the captured variables, from the closure's debug info
+    roles = {}
+    for var in ("namespace", "nanos", "peer"):
+        m = _re.search(r"\(_1\.(\d+): ", body.debug.get(var, ""))
+        if m:
+            roles[var] = int(m.group(1))
+    if len(roles) != 3 or len(set(roles.values())) != 3:
+        return dict(name=name, property="C17", verdict="inconclusive", detail="closure captures not recognised: %s" % body.debug, functions=[body.name])
+    problems, nq, ncases = [], 0, 0
+    for K in range(0, SPEC_CACHE + 1):
+        smt = _c17_smt(K)
+        smt.fun("C_closure3", 3)
+        st = {}
+        models = _c17_models(smt, K, cache_n, fields, st)
+        cl = [None, None, None]
+        cl[roles["namespace"]] = "(ref NSB)"
+        cl[roles["nanos"]] = "(ref NANOS)"
+        cl[roles["peer"]] = "(ref (ref NEWP))"
+        args = ["(C_closure3 %s)" % " ".join(cl), "(ref TBL)"]
+        ex = Exec(bodies, smt, models=models, max_paths=4000, ctor=True, unroll=True)
+        try:
+            paths = ex.run(body, args)
+        except (ValueError, AssertionError, KeyError, IndexError) as e:
+            return dict(name=name, property="C17", verdict="inconclusive", detail="K=%d: %r" % (K, e), functions=[body.name])
+        eqs = ["(= p_%d NEWP)" % i for i in range(K)]
+        amo = ["(not (and %s %s))" % (eqs[i], eqs[j]) for i in range(K) for j in range(i + 1, K)]
+        doc = "(= (discr DOCOPT) k_int_1)"
+        for pc, ret, calls, env in paths:
+            ncases += 1
+            pcs = " ".join(pc) if pc else "true"
+            ctx = "(and true %s %s)" % (pcs, " ".join(amo))
+            ops = [(("insert" if "::insert" in c[0] else "remove"), c[1]) for c in calls if _re.search(r"^MultimapTable::<.*>::(insert|remove)", c[0])]
+            is_ok = ret.startswith("(C_Ok ")
+            # (a) unknown document: error, nothing written
+            nq += 1
+            if ops or is_ok:
+                v, _ = solve(smt.script("(and %s (not %s))" % (ctx, doc)))
+                if v != "unsat":
+                    problems.append(("registering a peer for an unknown document fails and writes nothing", v, "K=%d" % K))
+                    continue
+            if not is_ok:
+                v, _ = solve(smt.script("(and %s %s)" % (ctx, doc)))
+                if v != "unsat":
+                    problems.append(("registering a peer for a known document succeeds (storage errors aside)", v, "K=%d" % K))
+                continue
+            # (b) the MRU update
+            bad_shape = False
+            removed = [[] for _ in range(K)]
+            n_ins = 0
+            for kind, v in ops:
+                if v[0] != st["PEERS_T"] or v[1] != "NSB" or not v[2].startswith("(C_tuple2 "):
+                    bad_shape = True
+                    break
+                n, p = split_sexpr_args(v[2])
+                if kind == "insert":
+                    if (n, p) != ("NANOS", "(ref NEWP)"):
+                        bad_shape = True
+                        break
+                    n_ins += 1
+                else:
+                    mj = _re.match(r"^n_(\d+)$", n)
+                    if not mj:
+                        bad_shape = True
+                        break
+                    j = int(mj.group(1))
+                    if p == "(ref p_%d)" % j:
+                        removed[j].append("true")
+                    elif p == "(ref NEWP)":
+                        removed[j].append(eqs[j])
+                    else:
+                        mo = _re.match(r"^\(ref p_(\d+)\)$", p)
+                        if mo:
+                            removed[j].append("(= p_%d p_%s)" % (j, mo.group(1)))
+                        else:
+                            bad_shape = True
+                            break
+            if bad_shape:
+                problems.append(("every write goes to the document's peer row: insert (now, peer), remove a stored (time, peer) pair", "sat", "K=%d ops=%s" % (K, [(k, v[1:]) for k, v in ops][:3])))
+                continue
+            if n_ins < 1:
+                problems.append(("a successful registration stores the peer with the current time", "sat", "K=%d" % K))
+                continue
+            any_eq = "(or false %s)" % " ".join(eqs)
+            conj = []
+            size_terms = []
+            for j in range(K):
+                rem = "(or false %s)" % " ".join(removed[j])
+                exp = eqs[j]
+                if j == 0 and K == SPEC_CACHE:
+                    exp = "(or %s (not %s))" % (eqs[0], any_eq)
+                conj.append("(= %s %s)" % (rem, exp))
+                size_terms.append("(ite %s 0 1)" % rem)
+            size = "(+ 1 0 %s)" % " ".join(size_terms)
+            spec = "(and true %s (<= %s %d))" % (" ".join(conj), size, SPEC_CACHE)
+            nq += 1
+            v, _ = solve(smt.script("(and %s %s (not %s))" % (ctx, doc, spec)))
+            if v != "unsat":
+                problems.append(("registration is the MRU update: the registered peer's old row (and only it) is replaced; the oldest row is evicted only when five other peers are stored", v, "K=%d" % K))
+    verdict = "holds"
+    if any(p[1] == "inconclusive" for p in problems):
+        verdict = "inconclusive"
+    if any(p[1] != "inconclusive" for p in problems):
+        verdict = "violated"
+    return dict(name=name, property="C17", verdict=verdict, detail="K=0..%d, cache size in source=%d; paths=%d; problems: %s" % (SPEC_CACHE, cache_n, ncases, problems or "none"),
+                functions=[body.name, "redb MultimapTable::{get,insert,remove}, MultimapValue::next, AccessGuard::value (modelled: sorted row of K pairs)"],
+                queries=nq, cases=ncases, witness="c17",
+                check_message=(problems[0][0] if problems else "registration is the MRU update"))
+
+
+def q_c17_read_order(bodies):
+    """C17, read side: the REAL `Store::get_sync_peers` (loop unrolled over the same K-row model)
+    returns the stored peers newest first (p_{K-1} .. p_0), all of them, and `None` for an empty row."""
+    import re as _re
+    name = "c17_read_order"
+    hits = find_body(bodies, r"^store::fs::.*::get_sync_peers$")
+    fields = _tables_fields()
+    cache_n = _c17_cache_size()
+    if len(hits) != 1 or "namespace_peers" not in fields or cache_n is None:
+        return dict(name=name, property="C17", verdict="inconclusive", detail="get_sync_peers not found uniquely (%d)" % len(hits), functions=[])
+    body = hits[0]
+    problems, nq, ncases = [], 0, 0
+    for K in range(0, SPEC_CACHE + 1):
+        smt = _c17_smt(K)
+        st = {}
+        models = _c17_models(smt, K, cache_n, fields, st)
+        ex = Exec(bodies, smt, models=models, max_paths=4000, ctor=True, unroll=True)
+        try:
+            paths = ex.run(body, ["STORE", "NSID"])
+        except (ValueError, AssertionError, KeyError, IndexError) as e:
+            return dict(name=name, property="C17", verdict="inconclusive", detail="K=%d: %r" % (K, e), functions=[body.name])
+        if len(paths) != 1:
+            problems.append(("get_sync_peers has one outcome per stored row (storage errors aside)", "inconclusive", "K=%d paths=%d" % (K, len(paths))))
+            continue
+        pc, ret, calls, env = paths[0]
+        ncases += 1
+        pushed = list(env.get("__pushed", ()))
+        want = ["p_%d" % i for i in reversed(range(K))]
+        nq += 1
+        # the order is decided syntactically per path and confirmed by the solver (p_i are distinct constants)
+        if len(pushed) != len(want):
+            problems.append(("every remembered peer is returned", "sat", "K=%d returned=%d" % (K, len(pushed))))
+            continue
+        dis = "(distinct %s)" % " ".join(want) if K > 1 else "true"
+        goal = "(and %s (not (and true %s)))" % (dis, " ".join("(= %s %s)" % (a, b) for a, b in zip(pushed, want)))
+        v, _ = solve(smt.script(goal))
+        if v != "unsat":
+            problems.append(("peers are returned most recent first", v, "K=%d" % K))
+        some = ret.startswith("(C_Ok (C_Some ")
+        if (K == 0) == some:
+            problems.append(("an empty peer row reads as None, a non-empty one as Some", "sat", "K=%d" % K))
+    verdict = "holds"
+    if any(p[1] == "inconclusive" for p in problems):
+        verdict = "inconclusive"
+    if any(p[1] != "inconclusive" for p in problems):
+        verdict = "violated"
+    return dict(name=name, property="C17", verdict=verdict, detail="K=0..%d; problems: %s" % (SPEC_CACHE, problems or "none"),
+                functions=[body.name, "redb MultimapTable::get, MultimapValue::{rev,next}, AccessGuard::value (modelled)"],
+                queries=nq, cases=ncases, witness="c17",
+                check_message=(problems[0][0] if problems else "peers are returned most recent first"))
+
+
+QUERIES["C17"] = [q_c17_register_step, q_c17_read_order]
+
+
+# ------------------------------------------------------------------------------------------------
+# C18: populate-if-empty migrations rebuild the derived tables exactly; reopening is a no-op
+# ------------------------------------------------------------------------------------------------
+
+def _compositions(n):
+    """all ways to cut rows 0..n-1 into contiguous groups: list of group-index lists"""
+    if n == 0:
+        return [[]]
+    out = []
+    for mask in range(1 << (n - 1)):
+        g, cur = [0], 0
+        for i in range(1, n):
+            if mask >> (i - 1) & 1:
+                cur += 1
+            g.append(cur)
+        out.append(g)
+    return out
+
+
+def _c18_models(smt, K, groups, flags):
+    """records table = K rows in key order; row i = ((ns_g, au_g, key_i), (ts_i, nsig_i, asig_i, len_i, hash_i)) with
+    g = groups[i] (rows of one (namespace, author) pair are contiguous in the table's key order)."""
+    from mirsmt import split_sexpr_args
+    for f, n in (("C_Ok", 1), ("C_Some", 1), ("C_None", 0), ("C_Continue", 1), ("C_kguard", 3), ("C_vguard", 5), ("C_tuple2", 2), ("C_tuple3", 3),
+                 ("C_tuple5", 5), ("C_entry", 1), ("tovec", 1), ("as_slice", 1), ("discr", 1)):
+        smt.fun(f, n)
+    for i in range(K):
+        for c in ("key_%d", "ts_%d", "nsig_%d", "asig_%d", "len_%d", "hash_%d"):
+            smt.decls.append("(declare-const %s V)" % (c % i))
+        smt.asserts.append("(= (as_slice (ref (tovec key_%d))) key_%d)" % (i, i))
+    for g in sorted(set(groups)):
+        smt.decls.append("(declare-const ns_%d V)" % g)
+        smt.decls.append("(declare-const au_%d V)" % g)
+    for c in ("TX", "ITER", "MAP"):
+        smt.decls.append("(declare-const %s V)" % c)
+
+    def row(i):
+        g = groups[i]
+        return "(C_tuple2 (C_kguard ns_%d au_%d key_%d) (C_vguard ts_%d nsig_%d asig_%d len_%d hash_%d))" % (g, g, i, i, i, i, i, i)
+
+    def m_open(ex, v):
+        mt = re.search(r"tables__([A-Z_0-9]+)$", v[1])
+        if not mt:
+            raise ValueError("open_table on an unrecognised table constant %s" % v[1])
+        return "(C_Ok TBL_%s)" % mt.group(1)
+
+    def m_is_empty(ex, v):
+        t = mk_deref(v[0])
+        if t == "TBL_RECORDS_TABLE":
+            return "(C_Ok (b2v %s))" % ("true" if K == 0 else "false")
+        if t not in flags:
+            raise ValueError("is_empty on an unexpected table %s" % t)
+        return "(C_Ok (b2v %s))" % flags[t]
+
+    def m_iter(ex, v, env):
+        if mk_deref(v[0]) != "TBL_RECORDS_TABLE":
+            raise ValueError("iter over an unexpected table %s" % v[0])
+        env["__it"] = (0, K)
+        return "(C_Ok ITER)"
+    m_iter.wants_env = True
+
+    def m_branch(ex, v):
+        if v[0].startswith("(C_Ok "):
+            return "(C_Continue %s)" % split_sexpr_args(v[0])[0]
+        return "(%s %s)" % (smt.fun("call_branch", 1), v[0])
+
+    def m_next(ex, v, env):
+        lo, hi = env["__it"]
+        if lo >= hi:
+            return "C_None"
+        env["__it"] = (lo + 1, hi)
+        return "(C_Some (C_Ok %s))" % row(lo)
+    m_next.wants_env = True
+
+    def m_kvalue(ex, v):
+        ns, au, key = split_sexpr_args(mk_deref(v[0]))
+        return "(C_tuple3 (ref %s) (ref %s) %s)" % (ns, au, key)
+
+    def m_vvalue(ex, v):
+        ts, nsig, asig, ln, h = split_sexpr_args(mk_deref(v[0]))
+        return "(C_tuple5 %s (ref %s) (ref %s) %s (ref %s))" % (ts, nsig, asig, ln, h)
+
+    # --- HashMap<(ns, author), (timestamp, Vec<u8>)> as an insertion-ordered association list in the path environment
+    def m_map_new(ex, v, env):
+        env["__map"] = ()
+        return "MAP"
+    m_map_new.wants_env = True
+
+    def m_entry(ex, v):
+        return "(C_entry %s)" % v[1]
+
+    def closure_body(ex, idx):
+        hits = find_body(ex.bodies, r"migration_001_populate_latest_table::\{closure#%d\}$" % idx)
+        if len(hits) != 1:
+            raise ValueError("closure#%d of migration_001 not found" % idx)
+        return hits[0]
+
+    def m_and_modify(ex, v, env):
+        key = split_sexpr_args(v[0])[0]
+        mp = env.get("__map", ())
+        for n, (k, ts, kv) in enumerate(mp):
+            if k == key:
+                cell = "(ref CELL_%d)" % n
+                smt.fun("CELL_%d" % n, 0)
+                sub = Exec(ex.bodies, smt, models=ex.models, max_paths=64, ctor=True)
+                paths = sub.run(closure_body(ex, 0), [v[1], cell], heap0={(cell, "0"): ts, (cell, "1"): kv})
+                new_ts, new_kv = ts, kv
+                for pc, ret, calls, e2 in paths:
+                    c = "(and true %s)" % " ".join(pc)
+                    h = e2.get("__heap", {})
+                    new_ts = "(ite %s %s %s)" % (c, h[(cell, "0")], new_ts) if h[(cell, "0")] != ts else new_ts
+                    new_kv = "(ite %s %s %s)" % (c, h[(cell, "1")], new_kv) if h[(cell, "1")] != kv else new_kv
+                env["__map"] = mp[:n] + ((k, new_ts, new_kv),) + mp[n + 1:]
+                break
+        return v[0]
+    m_and_modify.wants_env = True
+
+    def m_or_insert_with(ex, v, env):
+        key = split_sexpr_args(v[0])[0]
+        mp = env.get("__map", ())
+        if not any(k == key for k, _, _ in mp):
+            sub = Exec(ex.bodies, smt, models=ex.models, max_paths=64, ctor=True)
+            paths = sub.run(closure_body(ex, 1), [v[1]])
+            if len(paths) != 1 or not paths[0][1].startswith("(C_tuple2 "):
+                raise ValueError("or_insert_with closure: unexpected shape")
+            ts, kv = split_sexpr_args(paths[0][1])
+            env["__map"] = mp + ((key, ts, kv),)
+        return smt.const("entry_ref")
+    m_or_insert_with.wants_env = True
+
+    def m_map_len(ex, v, env):
+        return ex._konst("%d_usize" % len(env.get("__map", ())))
+    m_map_len.wants_env = True
+
+    def m_map_into_iter(ex, v, env):
+        env["__mapit"] = 0
+        return "MAPITER"
+    m_map_into_iter.wants_env = True
+    smt.decls.append("(declare-const MAPITER V)")
+
+    def m_map_next(ex, v, env):
+        n = env["__mapit"]
+        mp = env.get("__map", ())
+        if n >= len(mp):
+            return "C_None"
+        env["__mapit"] = n + 1
+        k, ts, kv = mp[n]
+        return "(C_Some (C_tuple2 %s (C_tuple2 %s %s)))" % (k, ts, kv)
+    m_map_next.wants_env = True
+
+    models = dict(_tracing_off_models())
+    models.update({
+        r"^WriteTransaction::open_table::<": m_open,
+        r" as ReadableTableMetadata>::is_empty$": m_is_empty,
+        r"^<Table<.*> as ReadableTable<.*>>::iter$": m_iter,
+        r" as Try>::branch$": m_branch,
+        r"^<redb::Range<.*> as Iterator>::next$": m_next,
+        r"^<redb::Range<.*> as IntoIterator>::into_iter$": lambda ex, v: v[0],
+        r"^AccessGuard::<'_, \(&\[u8; 32\], &\[u8; 32\], &\[u8\]\)>::value$": m_kvalue,
+        r"^AccessGuard::<'_, \(u64, &\[u8; 64\], &\[u8; 64\], u64, &\[u8; 32\]\)>::value$": m_vvalue,
+        r"^Table::<.*>::insert(::<.*>)?$": lambda ex, v: "(C_Ok C_None)",
+        r"^HashMap::<.*>::new$": m_map_new,
+        r"^HashMap::<.*>::entry$": m_entry,
+        r"hash_map::Entry::<.*>::and_modify::<": m_and_modify,
+        r"hash_map::Entry::<.*>::or_insert_with::<": m_or_insert_with,
+        r"^HashMap::<.*>::len$": m_map_len,
+        r"^<HashMap<.*> as IntoIterator>::into_iter$": m_map_into_iter,
+        r"^<std::collections::hash_map::IntoIter<.*> as Iterator>::next$": m_map_next,
+        r"slice::<impl \[u8\]>::to_vec$": lambda ex, v: "(tovec %s)" % v[0],
+        r"^Vec::<u8>::as_slice$": lambda ex, v: "(as_slice %s)" % v[0],
+    })
+    return models
+
+
+def _c18_outcome(ret):
+    """('skip'|'execute'|'err'|None, payload)"""
+    if not ret.startswith("(C_Ok "):
+        return ("err", None)
+    if "Skip" in ret:
+        return ("skip", None)
+    m = re.search(r"Execute (\S+?)\)", ret)
+    if m:
+        return ("execute", m.group(1))
+    return (None, None)
+
+
+def q_c18_by_key_rebuild(bodies):
+    """C18: the REAL `migration_004_populate_by_key_index` (loop unrolled over a records table of K rows).
+    Decided for K = 0..4 and both answers of `by_key.is_empty()`: a non-empty index is left alone
+    (Skip, no write: reopening an up-to-date database is a no-op); an empty one receives exactly one
+    row (namespace, key, author) per records row (namespace, author, key), nothing else, and the
+    outcome reports K rows."""
+    from mirsmt import split_sexpr_args
+    name = "c18_by_key_rebuild"
+    hits = find_body(bodies, r"migration_004_populate_by_key_index$")
+    if len(hits) != 1:
+        return dict(name=name, property="C18", verdict="inconclusive", detail="migration_004 not found uniquely (%d)" % len(hits), functions=[])
+    body = hits[0]
+    problems, nq, ncases = [], 0, 0
+    for K in range(0, 5):
+        for empty in ("true", "false"):
+            smt = Smt()
+            groups = list(range(K))
+            models = _c18_models(smt, K, groups, {"TBL_RECORDS_BY_KEY_TABLE": empty})
+            for t in ("TBL_RECORDS_BY_KEY_TABLE", "TBL_RECORDS_TABLE"):
+                smt.decls.append("(declare-const %s V)" % t)
+            ex = Exec(bodies, smt, models=models, max_paths=400, ctor=True, unroll=True)
+            try:
+                paths = ex.run(body, ["TX"])
+            except (ValueError, AssertionError, KeyError, IndexError) as e:
+                return dict(name=name, property="C18", verdict="inconclusive", detail="K=%d: %r" % (K, e), functions=[body.name])
+            ncases += 1
+            nq += 1
+            if len(paths) != 1:
+                problems.append(("the migration has one outcome per table content (storage errors aside)", "inconclusive", "K=%d paths=%d" % (K, len(paths))))
+                continue
+            pc, ret, calls, env = paths[0]
+            ins = [c[1] for c in calls if re.search(r"^Table::<.*>::insert", c[0])]
+            other = [c[0] for c in calls if re.search(r"::(remove|retain|retain_in|drain|delete_table|pop_first|pop_last|extract_if)\b", c[0])]
+            kind, payload = _c18_outcome(ret)
+            tag = "K=%d by_key empty=%s" % (K, empty)
+            want = ["(C_tuple3 (ref ns_%d) key_%d (ref au_%d))" % (i, i, i) for i in range(K)]
+            got = [v[1] for v in ins if v[0] == "(ref TBL_RECORDS_BY_KEY_TABLE)"]
+            if empty == "false":
+                # a populated index is consistent with the records table (it is maintained by every write):
+                # writing rows it already holds changes nothing, anything else does
+                if other or len(got) != len(ins) or any(g not in want for g in got):
+                    problems.append(("an index that is already populated is left as it is (reopening is a no-op)", "sat", tag))
+                continue
+            if other or len(got) != len(ins):
+                problems.append(("the rebuild only inserts into the by-key index", "sat", tag))
+                continue
+            if sorted(got) != sorted(want):
+                # syntactic mismatch: let the solver decide whether the rows can differ
+                goal = "(not (and true %s))" % " ".join("(= %s %s)" % (a, b) for a, b in zip(got, want)) if len(got) == len(want) else "true"
+                v, _ = solve(smt.script(goal))
+                if v != "unsat":
+                    problems.append(("the rebuilt index holds exactly one (namespace, key, author) row per stored entry", v, tag))
+                    continue
+            if kind != "execute" or payload != "k_%d_usize" % K:
+                problems.append(("the migration reports the number of rows it wrote", "sat", tag + " ret=" + ret[:80]))
+    verdict = "holds"
+    if any(p[1] == "inconclusive" for p in problems):
+        verdict = "inconclusive"
+    if any(p[1] != "inconclusive" for p in problems):
+        verdict = "violated"
+    return dict(name=name, property="C18", verdict=verdict, detail="K=0..4; problems: %s" % (problems or "none"),
+                functions=[body.name, "redb open_table/is_empty/iter/insert (modelled: K rows in key order)"], queries=nq, cases=ncases, witness="c18",
+                check_message=(problems[0][0] if problems else "the rebuilt index holds exactly one row per stored entry"))
+
+
+def q_c18_heads_rebuild(bodies):
+    """C18: the REAL `migration_001_populate_latest_table` and its two closures (both loops unrolled; the
+    HashMap is an association list; `and_modify`/`or_insert_with` run the real closure bodies).
+    Decided for K = 0..3 rows and every way of cutting them into contiguous (namespace, author)
+    groups, timestamps symbolic under one total preorder: a populated head table, or an empty records
+    table, is left alone; otherwise exactly one head row per (namespace, author) is written and it is
+    (ts_i, key_i) of a row i of that author whose timestamp is not older than any other row of that
+    author — the head a store that maintained it all along reports (C13)."""
+    from mirsmt import split_sexpr_args
+    name = "c18_heads_rebuild"
+    hits = find_body(bodies, r"migration_001_populate_latest_table$")
+    if len(hits) != 1:
+        return dict(name=name, property="C18", verdict="inconclusive", detail="migration_001 not found uniquely (%d)" % len(hits), functions=[])
+    body = hits[0]
+    problems, nq, ncases = [], 0, 0
+    for K in range(0, 4):
+        for groups in _compositions(K):
+            for empty in ("true", "false"):
+                smt = Smt()
+                smt.decls.append("(declare-fun ge (V V) Bool)")
+                models = _c18_models(smt, K, groups, {"TBL_LATEST_PER_AUTHOR_TABLE": empty})
+                for t in ("TBL_LATEST_PER_AUTHOR_TABLE", "TBL_RECORDS_TABLE"):
+                    smt.decls.append("(declare-const %s V)" % t)
+                ex = Exec(bodies, smt, models=models, max_paths=400, ctor=True, unroll=True)
+                try:
+                    paths = ex.run(body, ["TX"])
+                except (ValueError, AssertionError, KeyError, IndexError) as e:
+                    return dict(name=name, property="C18", verdict="inconclusive", detail="K=%d groups=%s: %r" % (K, groups, e), functions=[body.name])
+                ncases += 1
+                tag = "K=%d groups=%s heads empty=%s" % (K, groups, empty)
+                if len(paths) != 1:
+                    problems.append(("the migration has one outcome per table content (storage errors aside)", "inconclusive", tag + " paths=%d" % len(paths)))
+                    continue
+                pc, ret, calls, env = paths[0]
+                ins = [c[1] for c in calls if re.search(r"^Table::<.*>::insert", c[0])]
+                other = [c[0] for c in calls if re.search(r"::(remove|retain|retain_in|drain|delete_table|pop_first|pop_last|extract_if)\b", c[0])]
+                kind, payload = _c18_outcome(ret)
+                if empty == "false" or K == 0:
+                    if kind != "skip" or ins or other:
+                        problems.append(("a populated head table (or an empty store) is left untouched (reopening is a no-op)", "sat", tag))
+                    continue
+                ngroups = len(set(groups))
+                if other or any(v[0] != "(ref TBL_LATEST_PER_AUTHOR_TABLE)" for v in ins):
+                    problems.append(("the rebuild only inserts into the head table", "sat", tag))
+                    continue
+                by_group = {}
+                bad = False
+                for v in ins:
+                    mk = re.match(r"^\(C_tuple2 \(ref ns_(\d+)\) \(ref au_(\d+)\)\)$", v[1])
+                    if not mk or mk.group(1) != mk.group(2) or not v[2].startswith("(C_tuple2 "):
+                        bad = True
+                        break
+                    by_group.setdefault(int(mk.group(1)), []).append(split_sexpr_args(v[2]))
+                if bad or sorted(by_group) != list(range(ngroups)) or any(len(x) != 1 for x in by_group.values()):
+                    problems.append(("exactly one head row is written per (namespace, author) present in the records table", "sat", tag))
+                    continue
+                # order facts: every Ge test in any term is the total preorder `ge`
+                allterms = " ".join(" ".join(v) for v in ins)
+                extra = []
+                for op, a, b2 in _find_ops(allterms):
+                    t = "(op_%s %s %s)" % (op, a, b2)
+                    d = {"Ge": "(ge %s %s)" % (a, b2), "Gt": "(not (ge %s %s))" % (b2, a), "Le": "(ge %s %s)" % (b2, a), "Lt": "(not (ge %s %s))" % (a, b2)}[op]
+                    extra.append("(= (v2b %s) %s)" % (t, d))
+                tss = ["ts_%d" % i for i in range(K)]
+                for a in tss:
+                    extra.append("(ge %s %s)" % (a, a))
+                    for b2 in tss:
+                        extra.append("(or (ge %s %s) (ge %s %s))" % (a, b2, b2, a))
+                        for c in tss:
+                            extra.append("(=> (and (ge %s %s) (ge %s %s)) (ge %s %s))" % (a, b2, b2, c, a, c))
+                spec = []
+                for g, rows in by_group.items():
+                    TS, KEYS = rows[0]
+                    members = [i for i in range(K) if groups[i] == g]
+                    alts = []
+                    for i in members:
+                        alts.append("(and (= %s ts_%d) (= %s key_%d) %s)" % (TS, i, KEYS, i, " ".join("(ge ts_%d ts_%d)" % (i, j) for j in members)))
+                    spec.append("(or false %s)" % " ".join(alts))
+                nq += 1
+                v, _ = solve(smt.script("(and true %s (not (and true %s)))" % (" ".join(extra), " ".join(spec))))
+                if v != "unsat":
+                    problems.append(("the rebuilt head of an author is the (timestamp, key) of one of the author's entries with the greatest timestamp", v, tag))
+                    continue
+                if kind != "execute" or payload != "k_%d_usize" % ngroups:
+                    problems.append(("the migration reports the number of heads it wrote", "sat", tag + " ret=" + ret[:80]))
+    verdict = "holds"
+    if any(p[1] == "inconclusive" for p in problems):
+        verdict = "inconclusive"
+    if any(p[1] != "inconclusive" for p in problems):
+        verdict = "violated"
+    return dict(name=name, property="C18", verdict=verdict, detail="K=0..3, all contiguous groupings; cases=%d; problems: %s" % (ncases, problems or "none"),
+                functions=[body.name, body.name + "::{closure#0}", body.name + "::{closure#1}", "redb open_table/is_empty/iter/insert, std HashMap entry API (modelled)"],
+                queries=nq, cases=ncases, witness="c18",
+                check_message=(problems[0][0] if problems else "the rebuilt head of an author is its greatest-timestamp entry"))
+
+
+def q_c18_run_migration(bodies):
+    """C18: the REAL `run_migrations` / `run_migration` drivers (loop-free).  `run_migrations` reaches its
+    Ok return only after handing migration_001 and migration_004 to `run_migration` on the database it was
+    given; `run_migration` commits the write transaction it opened whenever the migration answers
+    `Execute` and reports success only then (a `Skip` needs no commit: nothing was written)."""
+    name = "c18_run_migration"
+    h1 = find_body(bodies, r"^run_migrations$")
+    h2 = find_body(bodies, r"^run_migration$")
+    src = open(REPO + "/src/store/fs/migrations.rs").read()
+    me = re.search(r"enum MigrateOutcome \{(.*?)\}", src, re.S)
+    variants = re.findall(r"^\s*(\w+)", me.group(1), re.M) if me else []
+    if len(h1) != 1 or len(h2) != 1 or "Execute" not in variants:
+        return dict(name=name, property="C18", verdict="inconclusive", detail="run_migration(s) / MigrateOutcome not found uniquely", functions=[])
+    exe = variants.index("Execute")
+    problems, nq, ncases = [], 0, 0
+    # --- run_migration
+    smt = Smt()
+    for f, n in (("C_Ok", 1), ("C_Continue", 1), ("discr", 1)):
+        smt.fun(f, n)
+    for c in ("DB", "F", "TXV", "OUTCOME"):
+        smt.decls.append("(declare-const %s V)" % c)
+    from mirsmt import split_sexpr_args
+
+    def m_branch(ex, v):
+        if v[0].startswith("(C_Ok "):
+            return "(C_Continue %s)" % split_sexpr_args(v[0])[0]
+        return "(%s %s)" % (smt.fun("call_branch", 1), v[0])
+    models = dict(_tracing_off_models())
+    models.update({
+        r"^Database::begin_write$": lambda ex, v: "(C_Ok TXV)" if v[0] == "DB" else "(C_Ok OTHER_TX)",
+        r"^<F as Fn<\(&WriteTransaction,\)>>::call$": lambda ex, v: "(C_Ok OUTCOME)",
+        r"^WriteTransaction::commit$": lambda ex, v: "(C_Ok %s)" % ex._konst("unit"),
+        r" as Try>::branch$": m_branch,
+    })
+    ex = Exec(bodies, smt, models=models, max_paths=4000, ctor=True)
+    try:
+        paths = ex.run(h2[0], ["DB", "F"])
+    except (ValueError, AssertionError, KeyError, IndexError) as e:
+        return dict(name=name, property="C18", verdict="inconclusive", detail="run_migration: %r" % (e,), functions=[h2[0].name])
+    is_exec = "(= (discr OUTCOME) k_int_%d)" % exe
+    ok_paths = 0
+    for pc, ret, calls, env in paths:
+        ncases += 1
+        if not ret.startswith("(C_Ok "):
+            continue
+        ok_paths += 1
+        commits = [c for c in calls if re.search(r"^WriteTransaction::commit$", c[0]) and c[1] and c[1][0] == "TXV"]
+        called = [c for c in calls if re.search(r"^<F as Fn<", c[0])]
+        if not called:
+            problems.append(("run_migration runs the migration it was given", "sat", ""))
+            continue
+        if not commits:
+            nq += 1
+            v, _ = solve(smt.script("(and true %s %s)" % (" ".join(pc), is_exec)))
+            if v != "unsat":
+                problems.append(("a migration that wrote rows (Execute) is committed before success is reported", v, ""))
+    if ok_paths == 0:
+        problems.append(("run_migration has a success path", "inconclusive", ""))
+    # --- run_migrations
+    smt2 = Smt()
+    for f, n in (("C_Ok", 1), ("C_Continue", 1), ("discr", 1)):
+        smt2.fun(f, n)
+    smt2.decls.append("(declare-const DB V)")
+    models2 = {r"^run_migration::<": lambda ex, v: "(C_Ok %s)" % ex._konst("unit"), r" as Try>::branch$": m_branch}
+    ex2 = Exec(bodies, smt2, models=models2, max_paths=400, ctor=True)
+    try:
+        paths2 = ex2.run(h1[0], ["DB"])
+    except (ValueError, AssertionError, KeyError, IndexError) as e:
+        return dict(name=name, property="C18", verdict="inconclusive", detail="run_migrations: %r" % (e,), functions=[h1[0].name])
+    okp = [p for p in paths2 if p[1].startswith("(C_Ok ")]
+    if not okp:
+        problems.append(("run_migrations has a success path", "inconclusive", ""))
+    for pc, ret, calls, env in okp:
+        ncases += 1
+        ran = [(re.search(r"run_migration::<.*?(migration_\d+_\w+)", c[0]) or [None, "?"])[1] for c in calls if c[0].startswith("run_migration::<") and c[1] and c[1][0] == "DB"]
+        for need in ("migration_001_populate_latest_table", "migration_004_populate_by_key_index"):
+            if need not in ran:
+                problems.append(("opening a store runs the populate-if-empty migration %s on its database" % need, "sat", "ran=%s" % ran))
+    verdict = "holds"
+    if any(p[1] == "inconclusive" for p in problems):
+        verdict = "inconclusive"
+    if any(p[1] != "inconclusive" for p in problems):
+        verdict = "violated"
+    return dict(name=name, property="C18", verdict=verdict, detail="run_migration paths=%d (ok %d), run_migrations ok paths=%d; problems: %s" % (len(paths), ok_paths, len(okp), problems or "none"),
+                functions=[h1[0].name, h2[0].name], queries=nq, cases=ncases, witness="c18",
+                check_message=(problems[0][0] if problems else "migrations that write are committed"))
+
+
+QUERIES["C18"] = [q_c18_by_key_rebuild, q_c18_heads_rebuild, q_c18_run_migration]
+
+
+# ------------------------------------------------------------------------------------------------
+# C06: transaction glue — flush commits; which store accesses may commit; is a write one transaction?
+# ------------------------------------------------------------------------------------------------
+
+def graph_reach(body, src_pred, dst_pred):
+    """Propositional reachability over the real block graph of a (non-coroutine) body: can a block
+    satisfying dst_pred be entered after a block satisfying src_pred has been executed?  Branch
+    conditions are free.  Encoded as the non-existence of an inductive invariant; decided by z3+cvc5.
+    Returns (True/False/None, stats)."""
+    L = ["(set-logic QF_UF)"]
+    nm = {}
+    for bn in body.blocks:
+        for f in ("T", "F"):
+            nm[(bn, f)] = "inv_%s_%s" % (bn, f)
+            L.append("(declare-const %s Bool)" % nm[(bn, f)])
+    srcs = {bn for bn, b in body.blocks.items() if src_pred(bn, b)}
+    dsts = {bn for bn, b in body.blocks.items() if dst_pred(bn, b)}
+    L.append("(assert %s)" % nm[("bb0", "F")])
+    edges = 0
+    for bn in body.blocks:
+        for s2 in body.successors(bn):
+            if s2 not in body.blocks:
+                continue
+            edges += 1
+            for f in ("T", "F"):
+                post = "T" if (bn in srcs or f == "T") else "F"
+                L.append("(assert (=> %s %s))" % (nm[(bn, f)], nm[(s2, post)]))
+    for d in dsts:
+        L.append("(assert (not %s))" % nm[(d, "T")])
+    L.append("(check-sat)")
+    verdict, _ = solve("\n".join(L), timeout=120)
+    return {"unsat": True, "sat": False}.get(verdict), {"blocks": len(body.blocks), "edges": edges, "sources": len(srcs), "targets": len(dsts)}
+
+
+def _c06_txn_variants():
+    src = open(REPO + "/src/store/fs.rs").read()
+    m = re.search(r"enum CurrentTransaction \{(.*?)\n\}", src, re.S)
+    if not m:
+        return []
+    return re.findall(r"^\s{4}(\w+)", m.group(1), re.M)
+
+
+def _c06_store_method(bodies, method):
+    hits = find_body(bodies, r"^store::fs::<impl at src/store/fs.rs:\d+:\d+: \d+:\d+>::%s$" % re.escape(method), r"&mut store::fs::Store")
+    return hits[0] if len(hits) == 1 else None
+
+
+def _c06_resolve(bodies, method, args):
+    """follow thin wrappers (`fn modify(f) { self.modify_impl(true, f) }`) to the body that handles the
+    transaction; returns (body, args, chain) or (None, reason, chain)"""
+    chain = []
+    for _ in range(4):
+        body = _c06_store_method(bodies, method)
+        if body is None:
+            return None, "store method %s not found uniquely" % method, chain
+        chain.append(body.name)
+        text = " ".join(" ".join(b) for b in body.blocks.values())
+        if "std::mem::take::<CurrentTransaction>" in text:
+            return body, args, chain
+        calls = [b[-1] for b in body.blocks.values() if b and re.search(r"= store::fs::Store::\w+::<", b[-1])]
+        if len(calls) != 1 or len(body.blocks) > 4:
+            return None, "store method %s is neither a transaction handler nor a thin wrapper" % method, chain
+        sp = Exec._split_call(calls[0])
+        callee, argtxt = sp[1], sp[2]
+        method = re.match(r"^store::fs::Store::(\w+)::<", callee).group(1)
+        new_args = []
+        for a in Exec.split_args(argtxt):
+            a = re.sub(r"^(copy|move) ", "", a.strip())
+            m = re.match(r"^_(\d+)$", a)
+            if m and int(m.group(1)) <= len(args):
+                new_args.append(args[int(m.group(1)) - 1])
+            elif a in ("const true", "const false"):
+                new_args.append("(b2v %s)" % a[6:])
+            else:
+                return None, "wrapper %s passes an argument this query does not follow: %s" % (body.name, a), chain
+        args = new_args
+    return None, "wrapper chain too long", chain
+
+
+def _c06_paths(bodies, body, args):
+    from mirsmt import split_sexpr_args
+    smt = Smt()
+    for f, n in (("C_Ok", 1), ("C_Continue", 1), ("discr", 1)):
+        smt.fun(f, n)
+    for c in ("STORE", "TAKEN", "F", "AGE_GT"):
+        smt.decls.append("(declare-const %s V)" % c)
+
+    def m_branch(ex, v):
+        if v[0].startswith("(C_Ok "):
+            return "(C_Continue %s)" % split_sexpr_args(v[0])[0]
+        return "(%s %s)" % (smt.fun("call_branch", 1), v[0])
+    models = dict(_tracing_off_models())
+    models.update({
+        r"^std::mem::take::<CurrentTransaction>$": lambda ex, v: "TAKEN",
+        r"^Database::begin_(write|read)$": lambda ex, v: "(C_Ok %s)" % smt.const("fresh_tx"),
+        r"^TransactionAndTables::new$|^ReadOnlyTables::new$": lambda ex, v: "(C_Ok (%s %s))" % (smt.fun("tables_of", 1), v[0]),
+        r"^TransactionAndTables::commit$": lambda ex, v: "(C_Ok %s)" % ex._konst("unit"),
+        r"^TransactionAndTables::with_tables_mut::<": lambda ex, v: "(C_Ok %s)" % smt.const("f_result"),
+        r"^<Duration as PartialOrd>::gt$": lambda ex, v: "AGE_GT",
+        r" as Try>::branch$": m_branch,
+    })
+    ex = Exec(bodies, smt, models=models, max_paths=6000, ctor=True)
+    return smt, ex.run(body, args)
+
+
+def _c06_access_methods(bodies):
+    """names of the Store methods through which iroh-docs code reaches the write transaction: every
+    `store::fs::Store::<m>::<..>(..)` callee whose resolved body runs a caller-supplied closure"""
+    names = set()
+    for name, bl in bodies.items():
+        for body in bl:
+            for b in body.blocks.values():
+                if b:
+                    m = re.search(r"= store::fs::Store::(\w+)::<[^(]*impl FnOnce\(&mut Tables\)|= store::fs::Store::(\w+)::<", b[-1])
+                    if m:
+                        names.add(m.group(1) or m.group(2))
+    out = []
+    for n in sorted(names):
+        body, args, chain = _c06_resolve(bodies, n, ["STORE", "F"])
+        if body is not None and any("with_tables_mut" in " ".join(b) for b in body.blocks.values()):
+            out.append(n)
+    return out
+
+
+def q_c06_txn_glue(bodies):
+    """C06 glue, decided over all paths of the REAL `Store::flush`, `Store::tables` and every `Store`
+    method that runs a caller's closure on the write transaction (`modify` and its variants; thin
+    wrappers are followed with their constant arguments).  Tracing side paths answer 'disabled'; redb
+    calls answer Ok.
+    * `flush` commits an open write transaction (and only that) before it reports success;
+    * the access methods commit the open write transaction only behind the age test, always BEFORE the
+      caller's closure runs / the tables are handed out, never after — so one store access is one
+      transaction piece: a single closure is never split by a commit."""
+    name = "c06_txn_glue"
+    variants = _c06_txn_variants()
+    hf = _c06_store_method(bodies, "flush")
+    ht = _c06_store_method(bodies, "tables")
+    methods = _c06_access_methods(bodies)
+    if hf is None or ht is None or "modify" not in methods or "Write" not in variants:
+        return dict(name=name, property="C06", verdict="inconclusive", detail="flush/tables/modify/CurrentTransaction not found (%s %s)" % (methods, variants), functions=[])
+    W = variants.index("Write")
+    is_write = "(= (discr TAKEN) k_int_%d)" % W
+    problems, nq, ncases = [], 0, 0
+    funcs = [hf.name, ht.name]
+    try:
+        smt, paths = _c06_paths(bodies, hf, ["STORE"])
+        for pc, ret, calls, env in paths:
+            ncases += 1
+            commits = [c for c in calls if c[0] == "TransactionAndTables::commit"]
+            if ret.startswith("(C_Ok ") and not commits:
+                nq += 1
+                v, _ = solve(smt.script("(and true %s %s)" % (" ".join(pc), is_write)))
+                if v != "unsat":
+                    problems.append(("flush reports success only after committing the open write transaction", v))
+            if commits:
+                nq += 1
+                v, _ = solve(smt.script("(and true %s (not %s))" % (" ".join(pc), is_write)))
+                if v != "unsat":
+                    problems.append(("flush commits nothing but the open write transaction", v))
+        may_commit = {}
+        todo = [("tables", ht, ["STORE"])]
+        for mname in methods:
+            body, args, chain = _c06_resolve(bodies, mname, ["STORE", "F"])
+            if body is None:
+                return dict(name=name, property="C06", verdict="inconclusive", detail=args, functions=chain)
+            funcs += [c for c in chain if c not in funcs]
+            todo.append((mname, body, args))
+        for label, body, args in todo:
+            smt, paths = _c06_paths(bodies, body, args)
+            may_commit[label] = False
+            for pc, ret, calls, env in paths:
+                ncases += 1
+                names = [c[0] for c in calls]
+                ci = [i for i, n in enumerate(names) if n == "TransactionAndTables::commit"]
+                fi = [i for i, n in enumerate(names) if n.startswith("TransactionAndTables::with_tables_mut::<")]
+                if ci:
+                    may_commit[label] = True
+                    nq += 1
+                    v, _ = solve(smt.script("(and true %s (not (and %s (v2b AGE_GT))))" % (" ".join(pc), is_write)))
+                    if v != "unsat":
+                        problems.append(("%s commits only an open write transaction that is older than the commit delay" % label, v))
+                    if fi and max(ci) > min(fi):
+                        problems.append(("%s never commits after the caller's closure ran" % label, "sat"))
+                if label != "tables" and ret.startswith("(C_Ok ") and len(fi) != 1:
+                    problems.append(("%s runs the caller's closure exactly once on its success path" % label, "sat"))
+    except (ValueError, AssertionError, KeyError, IndexError) as e:
+        return dict(name=name, property="C06", verdict="inconclusive", detail=repr(e), functions=funcs)
+    verdict = "holds"
+    if any(p[1] == "inconclusive" for p in problems):
+        verdict = "inconclusive"
+    if any(p[1] != "inconclusive" for p in problems):
+        verdict = "violated"
+    return dict(name=name, property="C06", verdict=verdict, detail="paths=%d; age-commit possible in: %s; problems: %s" % (ncases, may_commit, problems or "none"),
+                functions=funcs, queries=nq, cases=ncases, witness="c06",
+                check_message=(problems[0][0] if problems else "flush commits; one store access is never split by a commit"))
+
+
+def q_c06_put_atomic(bodies):
+    """C06, half-applied writes.  An insert is `ranger::Store::put`: prune the entries the new one
+    supersedes (`remove_prefix_filtered`), then write it (`entry_put`) — two separate accesses of the
+    file-backed store.  The crash image shows the last COMMITTED state, so the insert is atomic iff no
+    commit can fall between the two.  Decided from the real MIR:
+      A. the `Store` access method that `entry_put` goes through (thin wrappers followed with their
+         constant arguments) has a feasible path that commits the open transaction and then runs the closure;
+      B. in `ranger::Store::put` a call of `entry_put` is reachable after a call of `remove_prefix_filtered`;
+      C. the store's `remove_prefix_filtered` and `entry_put` cannot return without such an access.
+    A and B and C  =>  a commit between prune and write is possible: violated (confirmed natively by
+    forcing the age test at each access in turn and imaging the database file)."""
+    name = "c06_put_atomic"
+    variants = _c06_txn_variants()
+    hp = find_body(bodies, r"^ranger::Store::put$")
+    hr = find_body(bodies, r"^store::fs::<impl at src/store/fs.rs:\d+:\d+: \d+:\d+>::remove_prefix_filtered$")
+    he = find_body(bodies, r"^store::fs::<impl at src/store/fs.rs:\d+:\d+: \d+:\d+>::entry_put$")
+    hover = find_body(bodies, r"^store::fs::<impl at src/store/fs.rs:\d+:\d+: \d+:\d+>::put$")
+    if len(hp) != 1 or len(hr) != 1 or len(he) != 1 or "Write" not in variants:
+        return dict(name=name, property="C06", verdict="inconclusive", detail="bodies not found uniquely (%d %d %d)" % (len(hp), len(hr), len(he)), functions=[])
+    if hover:
+        return dict(name=name, property="C06", verdict="inconclusive", detail="the file-backed store overrides put: this query does not know its shape", functions=[hover[0].name])
+    nq = 0
+    access = lambda bn, bl: bool(bl) and re.search(r"= store::fs::Store::\w+::<", bl[-1]) is not None  # noqa
+    Cs, used = [], {}
+    for b in (hr[0], he[0]):
+        nq += 1
+        ret_blocks = [bn for bn, bl in b.blocks.items() if bl and bl[-1].startswith("return")]
+        skip, _ = _reach_avoiding(b, access, ret_blocks)
+        ms = sorted({re.search(r"= store::fs::Store::(\w+)::<", bl[-1]).group(1) for bn, bl in b.blocks.items() if access(bn, bl)})
+        used[b.name.rsplit("::", 1)[1]] = ms
+        Cs.append(skip is False and len(ms) >= 1)
+    # A: any access method entry_put may use
+    A, chains, npaths = False, [], 0
+    for mname in used.get("entry_put", []):
+        body, args, chain = _c06_resolve(bodies, mname, ["STORE", "F"])
+        if body is None:
+            return dict(name=name, property="C06", verdict="inconclusive", detail=args, functions=chain)
+        chains += chain
+        try:
+            smt, paths = _c06_paths(bodies, body, args)
+        except (ValueError, AssertionError, KeyError, IndexError) as e:
+            return dict(name=name, property="C06", verdict="inconclusive", detail=repr(e), functions=chain)
+        npaths += len(paths)
+        for pc, ret, calls, env in paths:
+            names = [c[0] for c in calls]
+            ci = [i for i, n in enumerate(names) if n == "TransactionAndTables::commit"]
+            fi = [i for i, n in enumerate(names) if n.startswith("TransactionAndTables::with_tables_mut::<")]
+            if ci and fi and min(ci) < min(fi):
+                nq += 1
+                v, _ = solve(smt.script("(and true %s)" % " ".join(pc)))
+                if v == "sat":
+                    A = True
+                elif v != "unsat":
+                    return dict(name=name, property="C06", verdict="inconclusive", detail="feasibility of the commit path: %s" % v, functions=chain)
+    call = lambda pat: (lambda bn, b: bool(b) and re.search(r"= <[^>]*Self as ranger::Store<E>>::%s(::<.*>)?\(|= ranger::Store::%s(::<.*>)?\(" % (pat, pat), b[-1]) is not None)  # noqa
+    nq += 1
+    B, statsB = graph_reach(hp[0], call("remove_prefix_filtered"), call("entry_put"))
+    if B is None or statsB["sources"] == 0 or statsB["targets"] == 0:
+        return dict(name=name, property="C06", verdict="inconclusive", detail="put does not call remove_prefix_filtered/entry_put in the recognised form: %s" % statsB, functions=[hp[0].name])
+    violated = A and B and all(Cs)
+    detail = "A (the access used by entry_put %s may commit before running the closure) = %s; B (entry_put after remove_prefix_filtered in put) = %s %s; C (both go through a store access %s) = %s" % (
+        used.get("entry_put"), A, B, statsB, used, Cs)
+    return dict(name=name, property="C06", verdict="violated" if violated else "holds", detail=detail,
+                functions=chains + [hp[0].name, hr[0].name, he[0].name], queries=nq, cases=npaths + 3, witness="c06",
+                check_message="an insert is one transaction: no commit can fall between pruning the superseded entries and writing the new one")
+
+
+def _reach_avoiding(body, avoid_pred, targets):
+    """can a target block be reached from bb0 without executing a block satisfying avoid_pred?  (z3+cvc5)"""
+    L = ["(set-logic QF_UF)"]
+    for bn in body.blocks:
+        L.append("(declare-const r_%s Bool)" % bn)
+    L.append("(assert r_bb0)")
+    for bn, b in body.blocks.items():
+        if avoid_pred(bn, b):
+            continue
+        for s2 in body.successors(bn):
+            if s2 in body.blocks:
+                L.append("(assert (=> r_%s r_%s))" % (bn, s2))
+    for t in targets:
+        L.append("(assert (not r_%s))" % t)
+    L.append("(check-sat)")
+    verdict, _ = solve("\n".join(L), timeout=60)
+    return {"unsat": True, "sat": False}.get(verdict), {}
+
+
+QUERIES["C06"] = [q_c06_txn_glue, q_c06_put_atomic]
